@@ -315,8 +315,11 @@ fn check_interrupt_points(t: &mut Tape, ctx: &Ctx) -> Outcome {
     // at compile time and therefore executes nothing
     // (an over-long line is refused as a whole by the line buffer and executes nothing either)
     let too_long = format!("PRINT A{}", ";A".repeat(520));
-    let inspect = match t.below(8) {
+    let inspect = match t.below(10) {
         0 | 1 => Some("PRINT A;B%;A$;I"),
+        // looking at the program (on the screen, or writing it out) is no edit either
+        6 => Some("LIST 10-30:PRINT A"),
+        7 => Some("SAVE \"X\""),
         2 => Some("PRINT A+"),
         3 => Some("PRINT A;:GOTO 64990"),
         4 => Some(too_long.as_str()),
@@ -557,7 +560,7 @@ fn check_inserted_stop(t: &mut Tape, ctx: &Ctx) -> Outcome {
                     stops += 1;
                     cmd = "CONT".into();
                     if t.chance(1, 3) {
-                        term.line(*t.pick(&["PRINT A;B%;A$", "PRINT A;B%;A$", "PRINT A+", "PRINT B%:GOTO 64999"]), &mut o);
+                        term.line(*t.pick(&["PRINT A;B%;A$", "PRINT A;B%;A$", "PRINT A+", "PRINT B%:GOTO 64999", "LIST -20", "SAVE \"X\""]), &mut o);
                         term.take();
                     }
                     continue;
@@ -577,7 +580,7 @@ fn check_inserted_stop(t: &mut Tape, ctx: &Ctx) -> Outcome {
                     stops += 1;
                     cmd = "CONT".into();
                     if t.chance(1, 3) {
-                        term.line(*t.pick(&["PRINT A;B%;A$", "PRINT A;B%;A$", "PRINT A+", "PRINT B%:GOTO 64999"]), &mut o);
+                        term.line(*t.pick(&["PRINT A;B%;A$", "PRINT A;B%;A$", "PRINT A+", "PRINT B%:GOTO 64999", "LIST -20", "SAVE \"X\""]), &mut o);
                         term.take();
                     }
                     continue;
